@@ -272,7 +272,17 @@ func checkC08(c *run.Ctx) {
 					if k == 0 && r.IntN(2) == 0 {
 						j = 0
 					}
-					switch r.IntN(3) {
+					switch r.IntN(5) {
+					case 3: // a key the map does not have, renamed onto one it has: that pair goes, the new one is appended
+						v := doc.S("took the name over")
+						m.Replace("never-set"+g.Next(), tree.Map[j].Key, docToAny(v))
+						moved := doc.P(tree.Map[j].Key, v)
+						tree.Map = append(append(tree.Map[:j:j], tree.Map[j+1:]...), moved)
+					case 4: // ... or onto a fresh key: appended
+						v := doc.S("appended")
+						nk := "fresh" + g.Next()
+						m.Replace("never-set"+g.Next(), nk, docToAny(v))
+						tree.Map = append(tree.Map, doc.P(nk, v))
 					case 0: // delete
 						m.Delete(tree.Map[j].Key)
 						tree.Map = append(tree.Map[:j:j], tree.Map[j+1:]...)
